@@ -4,7 +4,7 @@
 From Coq Require Import ZArith Reals Lra Lia List Bool String.
 From Coquelicot Require Import Coquelicot.
 From FF Require Import Base.Ops Inst.RInst Base.RAlg Model.Numeric Model.Gradient Model.GradConsts
-     Model.Tie.C11 Proofs.Foi Proofs.MatAlg Proofs.Gradient Proofs.GradientScaling Inst.EnclosureC11
+     Model.Tie.C11 Proofs.Foi Proofs.MatAlg Proofs.Gradient Proofs.GradientScaling
      Model.Consts Corr.Agree Corr.Obs Corr.ObsC11.   (* the last four: everything the case files of the correspondence check import *)
 Import ListNotations.
 Local Open Scope R_scope.
@@ -174,54 +174,8 @@ Theorem C11_slice_commutes : forall d thr th3 evs Vs Qs omega basis nopers coper
 Proof. exact (slice_commutes RO). Qed.
 Print Assumptions C11_slice_commutes.
 
-(* --- enclosure (paramcoq): the interval evaluation of the correspondence check encloses the real-valued model --- *)
-Definition C11_all_enclosure := EnclC11.all_enclosure.
-Definition C11_di_enclosure := EnclC11.di_enclosure.
-
-(* --- the general branch of _control_matrix_at_timestep_derivative is the Duhamel commutator integral --- *)
-(* M_gen[r,c] = int_0^dt e^{i w t} [Phi_h(t), N_a(t)]_rc dt  with Phi_h(t) = int_0^t e^{iHs} C_h e^{-iHs} ds and
-   N_a(t) = e^{iHt} B_a e^{-iHt} in the eigenbasis (no Taylor-branch approximation: masked => exactly zero) *)
-Theorem C11_Mgen_commutator_integral : forall d w ev (Cb NT : Mat) thr_dE thr_x thr_y dt,
-  0 < thr_dE /\ 0 < thr_x /\ 0 < thr_y ->
-  (forall p q m n, (p < d)%nat -> (q < d)%nat -> (m < d)%nat -> (n < d)%nat ->
-    (Rabs (di_b ev p q) < thr_dE -> di_b ev p q = 0) /\
-    (Rabs (di_x w ev m n) < thr_x -> di_x w ev m n = 0) /\
-    (Rabs (di_x w ev m n + di_b ev p q) < thr_y -> di_x w ev m n + di_b ev p q = 0)) ->
-  forall r c, (r < d)%nat -> (c < d)%nat ->
-  cRInt (comm_integrand d w ev Cb NT r c) 0 dt
-        (Mgen_entry RO d (deriv_integral_entry RO (thr_dE, thr_x, thr_y) w ev dt) Cb NT r c).
-Proof. exact Mgen_commutator_integral. Qed.
-Print Assumptions C11_Mgen_commutator_integral.
-
-Theorem C11_step_deriv_commutator_integral : forall d w ev (Cb NT : Mat) thr_dE thr_x thr_y dt,
-  0 < thr_dE /\ 0 < thr_x /\ 0 < thr_y ->
-  (forall p q m n, (p < d)%nat -> (q < d)%nat -> (m < d)%nat -> (n < d)%nat ->
-    (Rabs (di_b ev p q) < thr_dE -> di_b ev p q = 0) /\
-    (Rabs (di_x w ev m n) < thr_x -> di_x w ev m n = 0) /\
-    (Rabs (di_x w ev m n + di_b ev p q) < thr_y -> di_x w ev m n + di_b ev p q = 0)) ->
-  forall (phase : Cx) (BTj : Mat),
-  cRInt (fun t => cmul' phase (csumn' d (fun n => csumn' d (fun k =>
-                    cmul' (cmul' ic (mget RO BTj n k)) (comm_integrand d w ev Cb NT k n t))))) 0 dt
-        (step_deriv_entry RO d phase BTj
-           (mbuild d d (Mgen_entry RO d (deriv_integral_entry RO (thr_dE, thr_x, thr_y) w ev dt) Cb NT))).
-Proof. exact step_deriv_commutator_integral. Qed.
-
-(* hypotheses satisfiable: two-level segment with eigenvalues 0, 1 at frequency 3, extracted thresholds *)
-Example C11_mask_exact_sat :
-  let thr := Rdya (fst di_thr_dE) (snd di_thr_dE) in
-  forall p q m n, (p < 2)%nat -> (q < 2)%nat -> (m < 2)%nat -> (n < 2)%nat ->
-    (Rabs (di_b [0; 1] p q) < thr -> di_b [0; 1] p q = 0) /\
-    (Rabs (di_x 3 [0; 1] m n) < thr -> di_x 3 [0; 1] m n = 0) /\
-    (Rabs (di_x 3 [0; 1] m n + di_b [0; 1] p q) < thr -> di_x 3 [0; 1] m n + di_b [0; 1] p q = 0).
-Proof.
-  assert (P : 0 < Rdya (fst di_thr_dE) (snd di_thr_dE) < 1).
-  { apply (Rdya_small 944473296573929 73); reflexivity. }
-  cbv zeta. set (thr := Rdya (fst di_thr_dE) (snd di_thr_dE)) in *.
-  intros p q m n Hp Hq Hm Hn.
-  destruct p as [|[|p]]; [| |lia]; (destruct q as [|[|q]]; [| |lia]); (destruct m as [|[|m]]; [| |lia]);
-    (destruct n as [|[|n]]; [| |lia]); unfold di_b, di_x, vg, vget; simpl;
-    repeat split; intros H; try ring; exfalso; apply Rabs_def2 in H; lra.
-Qed.
+(* enclosure of the real-valued model by its interval evaluation (paramcoq): Inst/EnclosureC11.v, kept outside this
+   file's dependency cone like Inst/Enclosure.v (it loads Coq-Interval, which makes coqchk of the cone very slow) *)
 
 (* --- the sensitivity-derivative term (n_coeffs_deriv / n_coeffs) * ctrlmat_step --- *)
 Theorem C11_sens_term_correct : forall (ncd s : R) (b : Cx), s <> 0 ->
